@@ -1,4 +1,4 @@
-import LeptosModel.Proofs.OwnerCtx
+import LeptosModel.Proofs.OwnerEff
 /-!
 # C08 — owner disposal releases exactly what the scope created, exactly once
 
@@ -166,6 +166,24 @@ theorem C08_stale_key_never_resolves (st : St) (k : Key) (hd : KeyDead st.arena 
     (runOps st ops).arena.get k = none :=
   ((ArenaLe.reach (sr_runOps (SR.refl st) ops)).dead k hd).get_none
 
+/-! ## effects -/
+
+/-- **a disposed effect never runs again**: once the arena entry of effect `e` is dead, no later
+history logs a run of `e` (`rCount e` counts the `R e` events; the task only runs the body after it
+has seen the entry — which owns the channel's sender — alive) -/
+theorem C08_disposed_effect_never_runs (st : St) (e : Nat) (hd : EffDead st e) (ops : List Op) :
+    rCount e (runOps st ops).log = rCount e st.log :=
+  (k_runOps (K.refl e st) (SR.refl st) hd ops).rc
+
+/-- in particular: an effect created under an owner (its entry is one of the scope's nodes) never
+runs again after that owner has been cleaned up -/
+theorem C08_effects_in_scope_never_run (st : St) (hr : Reachable st.toCore) {o d e : Nat} {er : EffRec}
+    (ha : st.aliveB o = true) (hd : Below st.toCore o d) (he : st.effs[e]? = some er)
+    (hk : er.key ∈ nodesOf st.toCore d) (ops : List Op) :
+    rCount e (runOps (st.lift (cleanupOwner · o)) ops).log = rCount e (cleanupOwner st.toCore o).log :=
+  C08_disposed_effect_never_runs (st.lift (cleanupOwner · o)) e
+    ⟨er, he, C08_handles_invalidated hr ha hd hk⟩ ops
+
 /-! ## frame -/
 
 /-- **nothing outside the scope is affected** (owners): a `cleanup` pass leaves the record of every
@@ -181,6 +199,13 @@ theorem C08_frame_items {st : Core} (hr : Reachable st) (o : Nat) (k : Key) (w :
     (hk : st.arena.get k = some w) (hout : ∀ x, Touch st o x → k ∉ nodesOf st x) :
     (cleanupOwner st o).arena.get k = some w :=
   (cleanupOwner_frame hr.arenaWF hr.nodesOK o).keys k w hk hout
+
+/-- **frame**, both parts -/
+theorem C08_frame {st : Core} (hr : Reachable st) (o : Nat) :
+    (∀ x, ¬ Touch st o x → currentOwner st ≠ some x → (cleanupOwner st o).owners[x]? = st.owners[x]?) ∧
+    (∀ k w, st.arena.get k = some w → (∀ x, Touch st o x → k ∉ nodesOf st x) →
+      (cleanupOwner st o).arena.get k = some w) :=
+  ⟨fun x hx ha => C08_frame_owners hr o x hx ha, fun k w hk ho => C08_frame_items hr o k w hk ho⟩
 
 theorem C08_frame_owners_drop {st : Core} (hr : Reachable st) (o x : Nat) (hx : ¬ Touch st o x)
     (hamb : currentOwner st ≠ some x) : (dropOwner st o).owners[x]? = st.owners[x]? :=
@@ -294,6 +319,28 @@ example : (runOps {} (exOps ++ [.act [] (.cleanup 0)])).arena.get ⟨0, 0⟩ = n
 example : staleLookup (runOps {} exOps).toCore 0 = false := by decide
 example : (runOps {} [.act [] (.x .newOwner), .act [0] (.x (.item 5)), .«end»]).unowned = 0 ∧
     (runOps {} [.act [] (.x .newOwner), .act [0] (.x (.item 5)), .«end»]).arena.len = 0 := by decide
+
+/-- two roots, each with a cleanup and an item: cleaning the first leaves the second's record and
+item as they were and runs only the first's cleanup -/
+def exTwo : List Op :=
+  [.act [] (.x .newOwner), .act [] (.x .newOwner), .act [0] (.x (.cleanup 1)), .act [0] (.x (.item 10)),
+   .act [1] (.x (.cleanup 2)), .act [1] (.x (.item 20))]
+example : (runOps {} (exTwo ++ [.act [] (.cleanup 0)])).owners[1]? = (runOps {} exTwo).owners[1]? ∧
+    (runOps {} (exTwo ++ [.act [] (.cleanup 0)])).arena.get ⟨1, 0⟩ = some (Val.num 20) ∧
+    (runOps {} (exTwo ++ [.act [] (.cleanup 0)])).arena.get ⟨0, 0⟩ = none ∧
+    (runOps {} (exTwo ++ [.act [] (.cleanup 0)])).log = [Ev.c 1 0 0 false] := by decide
+/-- all owners gone, nothing unowned: the hypotheses of `C08_no_leak` are satisfiable -/
+example : ((runOps {} (exTwo ++ [.«end»])).owners.all fun r => !r.alive) = true ∧
+    (runOps {} (exTwo ++ [.«end»])).unowned = 0 ∧ (runOps {} (exTwo ++ [.«end»])).arena.len = 0 := by decide
+
+/-- an effect created under owner 0 and disposed with it before its first run: its entry is dead … -/
+example : EffDead (runOps {} [.body [.cleanup 4], .act [] (.x .newOwner), .act [0] (.x (.effect 0)),
+    .act [] (.cleanup 0)]) 0 :=
+  ⟨{ key := ⟨0, 0⟩, owner := 1, body := 0, dirty := true, firstRun := true, notified := true, woken := true,
+     done := false, sources := [] }, by decide, ⟨⟨0, none⟩, by decide, by decide⟩⟩
+/-- … and polling its task afterwards logs nothing (the pending first notification is lost) -/
+example : (runOps {} [.body [.cleanup 4], .act [] (.x .newOwner), .act [0] (.x (.effect 0)),
+    .act [] (.cleanup 0), .idle]).log = [] := by decide
 
 /-- a retained child owner is detached by its parent's `cleanup`: what is created under it later is
 released when the child itself is cleaned or dropped, not by the parent's next `cleanup` -/
